@@ -678,7 +678,7 @@ fn run_hist(c: &Case) -> Obs {
                 Some(k) => fail(&mut verdict, k.tag(), format!("[{tag}] {detail}")),
                 None => fail(&mut verdict, tag, detail),
             }
-        } else if flat.tainted.is_none() {
+        } else {
             if let Some(v) = vp {
                 probes.push((v, flat.off));
             }
@@ -716,12 +716,11 @@ fn run_hist(c: &Case) -> Obs {
                 }
                 let mut fr = make_reader(pk, &l.bytes, &index);
                 let tail = match guarded(AssertUnwindSafe(|| fr.seek_vp(v))) {
-                    // 64 KiB+ reads at the end of a marker-less file are a known class: keep the
-                    // probe clear of it there
+                    // alternate 64 KiB+ reads (direct path) and small reads
                     Outcome::Done(Ok(_)) => bounded_read_to_end(
                         fr.as_mut(),
                         l.d.len() + 1,
-                        if l.trailing_empty() || pk == "mt" { 70000 } else { 4096 },
+                        if t % 2 == 0 { 70000 } else { 4096 },
                     ),
                     Outcome::Done(Err(e)) => Err(format!("seek Err:{}", errkind(&e))),
                     Outcome::Panicked(m) => Err(format!("seek Panic:{m}")),
@@ -808,9 +807,8 @@ fn run_wtell(c: &Case) -> Obs {
             let mut r = make_reader(pk, &bytes, &[]);
             let tail = match guarded(AssertUnwindSafe(|| r.seek_vp(v))) {
                 Outcome::Done(Ok(_)) => {
-                    // small reads only: keeps clear of the direct-read class on marker-less files
                     let mut out = Vec::new();
-                    let mut buf = vec![0u8; 4096];
+                    let mut buf = vec![0u8; if i % 2 == 0 { 70000 } else { 4096 }];
                     loop {
                         match guarded(AssertUnwindSafe(|| r.read(&mut buf))) {
                             Outcome::Done(Ok(0)) => break Ok(out),
@@ -1023,8 +1021,10 @@ fn gen_offset(rng: &mut Rng, l: &Layout) -> u64 {
 fn gen_ops(rng: &mut Rng, kind: &str, l: &Layout, index: &[(u64, u64)], nops: usize) -> Vec<Op> {
     let mut flat = Flat::new(l, kind != "mt");
     let mut ops = Vec::new();
-    // how willing this history is to enter a known-defect class
-    let allow_known = rng.chance(1, 8);
+    // the two formerly defective classes (seek to end of file over a buffered block, 64 KiB
+    // reads at the end of a marker-less file) are ordinary valid histories since the repair
+    let allow_known = true;
+    let _ = rng.chance(1, 8);
     let mut tries = 0;
     while ops.len() < nops && tries < nops * 6 {
         tries += 1;
